@@ -9,6 +9,7 @@ import (
 	"strings"
 
 	"github.com/grafana/codejen"
+	"github.com/grafana/cog/internal/ast"
 	"github.com/grafana/cog/internal/jennies/template"
 	"github.com/grafana/cog/internal/languages"
 )
@@ -99,6 +100,14 @@ func (jenny CustomTemplates) templateData(context languages.Context) map[string]
 	}
 
 	sort.Strings(packages)
+
+	// templates see the schemas in the order of their packages, not in the order of the inputs
+	schemas := make(ast.Schemas, len(context.Schemas))
+	copy(schemas, context.Schemas)
+	sort.SliceStable(schemas, func(i, j int) bool {
+		return schemas[i].Package < schemas[j].Package
+	})
+	context.Schemas = schemas
 
 	return map[string]any{
 		"Context":  context,
